@@ -58,7 +58,26 @@ def generate(seed, tier):
                 appends.append([n, rand_value(rng)])
         if rng.random() < 0.5:
             rng.shuffle(appends)       # interleaved AppendValue history
-        return {'kind': 'READ', 'source': 'append', 'appends': appends, 'fmt': fmt, 'names': names,
+        # the holder is a dict: series are also stored by item assignment, update() and removed with del / pop;
+        # tables are rendered in between (a render must always reflect the holder as it is now)
+        hist = [['append', n, x] for n, x in appends]
+        if rng.random() < 0.6:
+            extra = []
+            for _ in range(rng.randint(1, 5)):
+                r2 = rng.random()
+                if r2 < 0.4:
+                    extra.append(['render'])
+                elif r2 < 0.65:
+                    extra.append(['setitem', rng.choice(NAMEPOOL), [rand_value(rng) for _ in range(rng.randint(0, 5))]])
+                elif r2 < 0.8:
+                    extra.append(['del', rng.choice(names)])
+                elif r2 < 0.9:
+                    extra.append(['update', rng.choice(NAMEPOOL), [rand_value(rng) for _ in range(rng.randint(1, 4))]])
+                else:
+                    extra.append(['append', rng.choice(NAMEPOOL), rand_value(rng)])
+            for e in extra:
+                hist.insert(rng.randint(0, len(hist)), e)
+        return {'kind': 'READ', 'source': 'append', 'appends': hist, 'fmt': fmt, 'names': names,
                 'holder_name': rng.choice(['k', 'iteration'])}
     if r < 0.8:
         case = eqncases.gen_case(seed, [('contractive', 3), ('chaos', 3), ('hazard', 2), ('cap_small', 1), ('expansive', 1)], tier)
@@ -166,21 +185,53 @@ def execute(case):
     if case['source'] == 'append':
         h = TimeSeriesHolder(case.get('holder_name', 'k'))
         ref = {}
-        for n, x in case['appends']:
-            h.AppendValue(n, x)
-            ref.setdefault(n, []).append(x)
-        txt = h.GenerateCSVtext(fmt)
+        for step in case['appends']:
+            if step[0] not in ('append', 'setitem', 'update', 'del', 'render'):   # old replay format [name, value]
+                step = ['append', step[0], step[1]]
+            kind = step[0]
+            if kind == 'append':
+                h.AppendValue(step[1], step[2])
+                ref.setdefault(step[1], []).append(step[2])
+            elif kind == 'setitem':
+                h[step[1]] = list(step[2])
+                ref[step[1]] = list(step[2])
+                stats['probes']['series_stored_by_item_assignment'] = 1
+            elif kind == 'update':
+                h.update({step[1]: list(step[2])})
+                ref[step[1]] = list(step[2])
+            elif kind == 'del':
+                if step[1] in ref:
+                    del h[step[1]]
+                    del ref[step[1]]
+            elif kind == 'render':
+                try:
+                    mid = h.GenerateCSVtext(fmt)
+                except Exception as ex:   # noqa
+                    viol.append(core.violation(ID, 'render-raised', 'render-raised:' + type(ex).__name__, error=str(ex)[0:100]))
+                    break
+                stats['tables'] += 1
+                stats['probes']['rendered_mid_history'] = 1
+                v = check_table(mid, ref, fmt, 'mid-history')
+                if v:
+                    viol.append(v)
+                    break
+        txt = ''
+        if not viol:
+            try:
+                txt = h.GenerateCSVtext(fmt)
+            except Exception as ex:   # noqa
+                viol.append(core.violation(ID, 'render-raised', 'render-raised:' + type(ex).__name__, error=str(ex)[0:100]))
         stats['tables'] += 1
-        v = check_table(txt, ref, fmt, 'append-history')
+        v = check_table(txt, ref, fmt, 'append-history') if not viol else None
         if v:
             viol.append(v)
         if ref and len(set(len(s) for s in ref.values())) > 1:
             stats['probes']['ragged_holder_rendered'] = 1
         if not ref:
             stats['probes']['empty_holder'] = 1
-        if txt != h.GenerateCSVtext(fmt):
+        if not viol and txt != h.GenerateCSVtext(fmt):
             viol.append(core.violation(ID, 'rendering-not-repeatable', 'rendering-not-repeatable'))
-        shape = [sorted(n in PRIORITY for n in ref), sorted(len(s) for s in ref.values())[0:3], fmt]
+        shape = [sorted(ref), sorted(len(s) for s in ref.values()), fmt, [st[0] for st in case['appends'] if st[0] != 'append']]
     elif case['source'] == 'solve':
         rec = eqn.run_block(case['block'], case['knobs'], case.get('faults', ()), case.get('drive', 'mono'))
         solver = rec['solver']
